@@ -373,11 +373,17 @@ def long_iteration_oracle(ctx):
 def match_truth_check(sc):
     doc = dec(sc["doc"])
     expr = Builder([]).steps(sc["path"])
-    ms = list(itertools.islice(find_matches(expr, doc), 200))
+    if sc.get("src"):
+        # nested searches from a Match: the matches of `path` searched from the k-th match of the source path
+        starts = list(itertools.islice(find_matches(Builder([]).steps(sc["src"]["path"]), doc), sc["src"]["k"] + 1))
+        if len(starts) <= sc["src"]["k"]:
+            return None, False
+        ms = list(itertools.islice(find_matches(expr, starts[sc["src"]["k"]]), 200))
+        kinds = [s[0] for s in sc["src"]["path"]] + [s[0] for s in sc["path"]]
+    else:
+        ms = list(itertools.islice(find_matches(expr, doc), 200))
+        kinds = [s[0] for s in sc["path"]]
     seen = {}
-    kinds = [s[0] for s in sc["path"]]
-    for s in sc["path"]:
-        pass
     nodup_applies = kinds.count("rec") <= 1 and "t" not in kinds and not _has_nested_dup(sc["path"])
     for m in ms:
         pml = m.path_match_list
@@ -422,8 +428,11 @@ def _has_nested_dup(steps):
 
 def match_truth_oracle(ctx):
     def make(rng):
-        sc = gen.gen_query(rng, "nopar", api="find_matches", with_src=False)
-        return {"doc": sc["doc"], "path": sc["path"]}
+        sc = gen.gen_query(rng, "nopar", api="find_matches", with_src=rng.random() < 0.35)
+        if sc.get("src") and rng.random() < 0.5:
+            # explicit key / index steps only (what Match.path itself is made of), often the bare root
+            sc["path"] = [s for s in sc["path"] if s[0] in ("k", "i")][:rng.randint(0, 2)]
+        return {"doc": sc["doc"], "path": sc["path"], "src": sc.get("src")}
     _run(ctx, "match_truth", 1200, 30000, make, match_truth_check)
 
 
@@ -551,6 +560,83 @@ def untraced_oracle(ctx):
         sc["id"] = 0
         return corr.finalize_query(sc)
     _run(ctx, "untraced", 1200, 30000, make, untraced_check)
+
+
+DOCUMENTED_ATTRS = {"wc", "wildcard", "gwc", "generic_wildcard", "rec", "recursive", "parent", "shape",
+                    "create_path_builder", "transform_attribute_name", "_RESERVED_ATTR_FOR_VERTEX_DATA"}
+
+
+def spelling_check(sc):
+    """path.k and path['k'] (pathd: '_' -> '-') select identically for every name that is not one of
+    the builder's documented attributes"""
+    from treepath import pathd
+    name = sc["name"]
+    dashed = name.replace("_", "-")
+    doc = {name: 1, dashed: 2, "other": {name: 3, dashed: 4}}
+    for root, key, label in ((path, name, "path"), (pathd, dashed, "pathd"), (path.other, name, "path.other"),
+                              (pathd.other, dashed, "pathd.other")):
+        try:
+            by_attr = getattr(root, name)
+            got = [(m.path_as_str, m.data) for m in find_matches(by_attr, doc)]
+            text = str(by_attr)
+        except Exception as e:  # noqa
+            return f"{label}.{name} is not a key step ({type(e).__name__}: {e})", True
+        by_item = root[key]
+        want = [(m.path_as_str, m.data) for m in find_matches(by_item, doc)]
+        if got != want or text != str(by_item):
+            return f"{label}.{name} selects {got} / renders {text!r}, {label}[{key!r}] selects {want} / renders {str(by_item)!r}", True
+    return None, True
+
+
+def spelling_oracle(ctx):
+    import importlib
+    names = set()
+    for mod, cls in (("treepath.path.builder.path_builder", "PathBuilder"), ("treepath.path.builder.dash_path_builder", "DashPathBuilder"),
+                     ("treepath.path.builder.root_path_builder", "RootPathBuilder")):
+        try:
+            names |= set(dir(getattr(importlib.import_module(mod), cls)))
+        except Exception:  # noqa
+            pass
+    names |= set(dir(path)) | {"k", "x_y", "_private", "keys", "items", "data", "path", "match", "vertex", "_vertex", "name"}
+    names = sorted(n for n in names if not (n.startswith("__") and n.endswith("__")) and n not in DOCUMENTED_ATTRS)
+    it = iter(names)
+    _run(ctx, "spelling", len(names), len(names), lambda rng: {"name": next(it)}, spelling_check)
+
+
+def long_scan_check(sc):
+    """a long sparse scan (many candidates examined between two results): the outcome — values or
+    the exception class — must not depend on a trace callable being passed, also when the scan comes
+    close to the per-next() action budget"""
+    n = sc["n"]
+    doc = [{"y": i} for i in range(n)]
+    doc.append({"x": "needle"})
+    steps = sc["path"]
+
+    def outcome(traced):
+        expr = Builder([]).steps(steps)
+        hits = []
+
+        def tr(t):
+            if t.predicate_match is None and t.next_match is not None and t.next_match.data == "needle":
+                hits.append(t.next_match.data)
+        try:
+            return ("values", list(find(expr, doc, trace=tr) if traced else find(expr, doc))), hits
+        except Exception as e:  # noqa
+            return ("raised", type(e).__name__), hits
+    plain, _ = outcome(False)
+    traced, hits = outcome(True)
+    if plain != traced:
+        return f"a scan over {n} non-matching elements: without trace {plain!r}, with trace {traced!r}", True
+    if traced[0] == "values" and traced[1] != hits:
+        return f"last-step events {hits!r} do not correspond to the results {traced[1]!r}", True
+    return None, True
+
+
+def long_scan_oracle(ctx):
+    cases = [{"n": 250000, "path": [["iwc"], ["k", "x"]]}, {"n": 330000, "path": [["gwc"], ["k", "x"]]},
+             {"n": 160000, "path": [["rec"], ["k", "x"]]}]
+    it = iter(cases)
+    _run(ctx, "long_scan", len(cases), len(cases), lambda rng: next(it), long_scan_check)
 
 
 # ---------------- C20: work bound and cyclic structures ----------------
